@@ -1,15 +1,21 @@
 import UPVerif.Core.Sexp
-import UPVerif.Core.Mangle
+import UPVerif.Core.MangleSelect
 import UPVerif.Gen.Keywords
 /-! line-protocol handler for C38: runs the executable model of the writers' name mangling on one case
 
 ```
-(pddl  (flags P 3 T C) HIER (names n…) (items (cls name extra…)…) (ops op…) (write W))
+(pddl  PROB HIER (names n…) (items (cls name extra…)…) (ops op…) (write W))
                                                               op ::= (m i) | (named s) | (pname i)
-(pddlw (flags P 3 T C) (items (cls name extra…)…))
+(pddlw PROB (items (cls name extra…)…))
+(maw   (agents N) (items (cls name extra…)…))
 (anml  (types (name father)…) (fluents (name ty (params (name ty)…))…)
-       (actions (cls name (params (name ty)…))…) (objects (name tyIdx)…))      ty ::= bool | <type index>
+       (actions (cls name (params (name ty)…))…) (objects (name tyIdx)…) [(opts D N)])   ty ::= bool | <type index>
+
+PROB ::= (view (mro C…) (actions (C…)…) (lens nProcesses nEvents nTrajectory nTimedEffects nTimedGoals) DISCRETE)
+       | (flags P 3 T C)        -- legacy: the four table choices given directly
 ```
+`view` is what `PDDLWriter.__init__` can read of the problem (`ProblemView`); the keyword set is computed from it by the
+conditions extracted from `__init__` (`Gen.pddlSelect`).
 `extra` (types of objects and parameters, owners of parameters, fathers of types) and `W` (whether the real
 writer is also asked for its output after the calls) only matter for building the real problem; the model's
 inputs are the classes and names, `problem.has_name` (`names`) and `has_hierarchical_typing` (`HIER`).
@@ -26,6 +32,28 @@ def parseFlags : Sexp → Option (Bool × Bool × Bool × Bool)
   | .list [.atom "flags", a, b, c, d] => do
     some (← a.asBool?, ← b.asBool?, ← c.asBool?, ← d.asBool?)
   | _ => none
+
+def parseNames : List Sexp → Option (List Name) := fun xs => xs.mapM (fun e => e.asAtom?.map String.toList)
+
+def parseView : Sexp → Option ProblemView
+  | .list [.atom "view", .list (.atom "mro" :: mro), .list (.atom "actions" :: acts),
+           .list [.atom "lens", np, ne, ntr, nte, ntg], d] => do
+    let mro ← parseNames mro
+    let acts ← acts.mapM (fun a => match a with | .list cs => parseNames cs | _ => none)
+    some { mro := mro, actions := acts, nProcesses := ← np.asNat?, nEvents := ← ne.asNat?, nTrajectory := ← ntr.asNat?,
+           nTimedEffects := ← nte.asNat?, nTimedGoals := ← ntg.asNat?, discrete := ← d.asBool? }
+  | _ => none
+
+/-- the keyword set of the writer: from the problem view by the extracted conditions, or (legacy) from four flags -/
+def parseKw (e : Sexp) : Option (List Name) :=
+  match parseView e with
+  | some v => some (initKeywords T UPVerif.Gen.pddlSelect v)
+  | none => (parseFlags e).map fun (a, b, c, d) => pddlKeywords T a b c d
+
+/-- `sorted(self.pddl_keywords - GENERAL_PDDL_KEYWORDS)` -/
+def optKw (kw : List Name) : Sexp :=
+  let ks := ((kw.filter fun k => !T.pddlGeneral.contains k).eraseDups.map String.ofList).toArray.qsort (· < ·)
+  Sexp.tag "optkw" (ks.toList.map Sexp.atom)
 
 def parseItems : Sexp → Option (List Item)
   | .list (.atom "items" :: xs) =>
@@ -67,27 +95,33 @@ def runOps (env : PddlEnv) (items : List Item) : List Op → PddlState → List 
     | some it => runOps env items r st ((match getPddlName st it with | some n => nm n | none => noneS) :: acc)
 
 def handlePddl (fl hier names items ops : Sexp) : Option Sexp := do
-  let (a, b, c, d) ← parseFlags fl
+  let kw ← parseKw fl
   let hier ← hier.asBool?
   let names ← (match names with
-    | .list (.atom "names" :: xs) => xs.mapM (fun e => e.asAtom?.map String.toList)
+    | .list (.atom "names" :: xs) => parseNames xs
     | _ => none)
   let items ← parseItems items
   let ops ← (match ops with
     | .list (.atom "ops" :: xs) => xs.mapM parseOp
     | _ => none)
-  let env : PddlEnv := { kw := pddlKeywords T a b c d, hier := hier, names := names }
+  let env : PddlEnv := { kw := kw, hier := hier, names := names }
   let (st, res) ← runOps env items ops {} []
   some (.list [Sexp.tag "hier" [Sexp.ofBool hier], Sexp.tag "nkw" [Sexp.ofNat env.kw.eraseDups.length],
-               Sexp.tag "res" res,
+               optKw env.kw, Sexp.tag "res" res,
                Sexp.tag "otn" (st.otn.map fun (it, n) => .list [itemIdx items it, nm n]),
                Sexp.tag "nto" (st.nto.map fun (n, it) => .list [nm n, itemIdx items it])])
 
 def handlePddlW (fl items : Sexp) : Option Sexp := do
-  let (a, b, c, d) ← parseFlags fl
+  let kw ← parseKw fl
   let items ← parseItems items
-  let kw := pddlKeywords T a b c d
-  some (.list [Sexp.tag "nkw" [Sexp.ofNat kw.eraseDups.length],
+  some (.list [Sexp.tag "nkw" [Sexp.ofNat kw.eraseDups.length], optKw kw,
+               Sexp.tag "base" (items.map fun it => nm (pddlName T kw it))])
+
+/-- `MAPDDLWriter`: the fixed keyword set, `_get_pddl_name` of every element -/
+def handleMaW (items : Sexp) : Option Sexp := do
+  let items ← parseItems items
+  let kw := maKeywords T UPVerif.Gen.maSelect
+  some (.list [Sexp.tag "nkw" [Sexp.ofNat kw.eraseDups.length], optKw kw,
                Sexp.tag "base" (items.map fun it => nm (pddlName T kw it))])
 
 def userCls : Name := "_UserType".toList
@@ -159,7 +193,11 @@ def handle : Sexp → Sexp
   | .list [.atom "pddl", fl, hier, names, items, ops, .list [.atom "write", _]] =>
     (handlePddl fl hier names items ops).getD (.atom "bad-case")
   | .list [.atom "pddlw", fl, items] => (handlePddlW fl items).getD (.atom "bad-case")
+  | .list [.atom "maw", .list [.atom "agents", _], items] => (handleMaW items).getD (.atom "bad-case")
   | .list [.atom "anml", types, fluents, actions, objects] =>
+    (handleAnml types fluents actions objects).getD (.atom "bad-case")
+  -- the ANML keyword set is fixed: the time model and the timed effects of `opts` are no input of the model
+  | .list [.atom "anml", types, fluents, actions, objects, .list [.atom "opts", _, _]] =>
     (handleAnml types fluents actions objects).getD (.atom "bad-case")
   | _ => .atom "bad-case"
 
